@@ -24,7 +24,7 @@ RULE = ('every terminal state of SolveT.tla (full alphabet, N=3 quick / 4 thorou
         '{solve_t, solve_period, solve} x second solve of the same period; parser-built catalogue x max_iter with per-pass twin. '
         'non-trivial = traced execution that records at least one snapshot')
 ASSUMPTIONS = c02.ASSUMPTIONS + [
-    'whether the snapshot of a pass that raised is recorded is not demanded (both accepted)',
+    'a pass that raised before completing leaves no snapshot (the trace stops after the last completed pass)',
     'values compared bit-for-bit; NaN payloads as NumPy stores them',
 ]
 
@@ -104,7 +104,7 @@ def expected_labels(exp, opts, hist):
     raised_in_pass = exp['result'] == 'SolutionError' and (exp['cause'] in ('exception', 'warning')) and exp['postRuns'] == 0 and k >= 1 and (
         hist[k - 1] == 'exc' or (hist[k - 1] == 'nanw' and opts['errors'] == 'raise' and opts['cfe']))
     if raised_in_pass:
-        return [base + list(range(1, k)), base + list(range(1, k + 1))]
+        return [base + list(range(1, k))]  # the trace stops after the last COMPLETED pass: a pass that raised half-way leaves no snapshot
     seq = base + list(range(1, k + 1))
     if exp['postRuns']:
         if opts['postHook'] == 'exc':
@@ -297,6 +297,14 @@ def run_cat_case(case):
             if not same(tr.values[:, 3 + j - 1].tolist(), wantj):
                 out.append(('catalogue:snapshot-pass', wantj, tr.values[:, 3 + j - 1].tolist(), 'snapshot %d differs from the values after pass %d' % (j, j)))
                 break
+    # a copy of a traced model has its own traces: tracing the copy again must not touch the original's record
+    recorded0 = [(list(tr.index), tr.values.copy()) for tr in a.trace]
+    cp = a.copy()
+    refsolve.call_outcome(cp.solve, trace=arg, **kw)
+    for pos, tr in enumerate(a.trace):
+        if list(tr.index) != recorded0[pos][0] or not np.array_equal(tr.values, recorded0[pos][1], equal_nan=True):
+            out.append(('catalogue:trace-shared-with-copy', recorded0[pos][0], list(tr.index), 'a traced solve of a copy appended to the trace of the original'))
+            break
     # a recorded trace is a record: later changes to the model (a new variable) must not rewrite it
     recorded = [(list(tr.names), list(tr.index), tr.values.copy()) for tr in a.trace]
     a.add_variable('Zlater', 0.0)
